@@ -267,6 +267,31 @@ def settle (cfg : Cfg) (yields : Wire → Bool) (s : Sys) : Sys :=
       settle cfg yields s1
 termination_by s.buf.length
 
+/-- the same loop had the read queue a capacity `cap > 0` (`asyncio.Queue(cap)`), up to the point where the reader
+    task suspends: `await put()` waits while `cap` items are queued, and nothing behind the frame it holds is read from
+    the stream any more - in particular no alive check - until a consumer takes an item.  `settle` above uses that the
+    queue of hsfz.py is unbounded (obligation `queues_unbounded` in `Proofs/C07.lean`, regenerated from the code on
+    every run): the reader task never waits for a consumer, and the re-queue of the frames an ack wait skipped
+    (`put_nowait`) never fails.  Kept to state the witness `bounded_queue_starves_alive_check`. -/
+def settleBounded (cap : Nat) (cfg : Cfg) (yields : Wire → Bool) (s : Sys) : Sys :=
+  if s.closed || s.eof then s else
+  match h : cutWire s.buf with
+  | none => clientRun cfg s
+  | some (w, rest) =>
+    have : rest.length < s.buf.length := cutWire_shrinks h
+    let full := (match dispatch w with | .enq _ => true | _ => false) && decide (0 < cap ∧ cap ≤ s.queue.length)
+    if full then clientRun cfg s
+    else
+      let s1 := deliver cfg { s with buf := rest } w
+      if yields w then
+        have : (clientRun cfg s1).buf.length < s.buf.length := by
+          rw [clientRun_buf, deliver_buf]; exact this
+        settleBounded cap cfg yields (clientRun cfg s1)
+      else
+        have : s1.buf.length < s.buf.length := by rw [deliver_buf]; exact this
+        settleBounded cap cfg yields s1
+termination_by s.buf.length
+
 /-- fire the consumer's timers that are due up to `target` (the caller's timer wins a tie: it was armed first).
     A cancelled ack wait puts the frames it has skipped back in front of the queue (`finally` in `_read_ack`);
     a cancelled `read_diag_request` drops them. -/
